@@ -943,13 +943,13 @@ impl Sim for ScanSim {
     fn plan(prop: &str, tier: Tier) -> Vec<Phase> {
         let abs_total: u64 = (0..ABS_WORLDS).map(abs_count).sum();
         match (prop, tier) {
-            (_, Tier::Quick) => vec![Phase { name: "worlds", count: 150_000, exhaustive: false }],
+            (_, Tier::Quick) => vec![Phase { name: "worlds", count: 300_000, exhaustive: false }],
             ("C02", Tier::Thorough) => vec![
-                Phase { name: "worlds", count: 3_000_000, exhaustive: false },
+                Phase { name: "worlds", count: 6_000_000, exhaustive: false },
                 Phase { name: "all-block-sizes", count: abs_total, exhaustive: true },
             ],
             (_, Tier::Thorough) => vec![
-                Phase { name: "worlds", count: 3_000_000, exhaustive: false },
+                Phase { name: "worlds", count: 6_000_000, exhaustive: false },
                 Phase { name: "all-block-sizes", count: abs_total, exhaustive: true },
             ],
         }
